@@ -172,7 +172,11 @@ def prepare_tree(dst, spec, misses):
             misses.append(f"{rd['file']}: file missing")
             continue
         text = open(path).read()
-        new, n = re.subn(rd["pattern"], rd["replacement"], text, count=rd.get("count", 0), flags=re.M)
+        if rd.get("func"):
+            new = rd["func"](text)
+            n = 1 if new != text else 0
+        else:
+            new, n = re.subn(rd["pattern"], rd["replacement"], text, count=rd.get("count", 0), flags=re.M)
         if n == 0:
             misses.append(f"{rd['file']}: pattern {rd['pattern']!r} not found")
             if rd.get("required"):
